@@ -109,6 +109,8 @@ def worker(batch):
     out = []
     for src, meta in batch:
         r = judge(src)
+        if meta[0] == 'extra' and r[0] == 'viol':
+            r = ('viol', ['reviewer-shape', src] + list(r[1]), r[2])   # one signature per shape: nothing else can hide behind it
         out.append((src, meta, r))
     return out
 
@@ -123,6 +125,12 @@ def sentences(ctx):
     stmts = larksent.statements(1 if ctx.quick else 2, small if not ctx.quick else small[::3] + ['a if b else c', 'not a', 'a < b', 'lambda x: a'], ['a', 'f(b)'])
     for s in stmts:
         yield s, ('stmt', 0)
+    # shapes reported by reviewers of the unchanged tree (kept as generator cases)
+    for s in ['try:\n\tpass\nexcept E:\n\tpass', '(a, b), c = x', 'class C:\n\tdef __init__(self) -> None:\n\t\tself.a, self.b = 1, 2', 'def f(self) -> None:\n\tpass',
+              'class C:\n\tdef m(this) -> None:\n\t\tpass', 'def f() -> None:\n    x = 1\n\x0c    y = 2', 'x = {**a, "k": 1}', 'x = [*a, 1]', 'a, b = b, a', 'x = a if b else c if d else e',
+              'try:\n\tpass\nexcept (E, F) as e:\n\tpass', 'with a as (b, c):\n\tpass', 'for (a, b), c in d:\n\tpass', 'x = a[1:2, ::3]', 'x = (yield)', 'x: int', 'del a, b', 'assert a, b', 'global a', 'nonlocal a',
+              'raise E from f', 'import a.b', 'from . import a', 'from a import (b, c)', 'lambda *a, **k: a', 'x = f(a for a in b)', 'x = [a for a in b if c if d]', 'x = {a: b for a, b in c}', 'x = a @ b', 'x = a // b', 'x = a ** -b']:
+        yield s, ('extra', 0)
 
 
 def run(ctx):
